@@ -421,11 +421,13 @@ def h_m_call(w, st, rec):
         if any_alias(res_arrays, all_model_arrays(st)):
             w.violate("result_aliases_model", site, {"what": "returned storage shares memory with a live model"})
     if comparable(rec):
-        key = jkey({"spec": m["spec"], "method": method, "args": canonical_args(a), "seed": rec.get("seed")})
+        key = jkey({"spec": m["spec"], "edits": m.get("edits"), "method": method, "args": canonical_args(a),
+                    "seed": rec.get("seed")})
         ok = compare_history(w, st, key, rec, out, site)
         if key not in st.oblig:
-            st.oblig[key] = {"ops": [{"op": "m.new.private", "spec": m["spec"]},
-                                     {"op": "m.call", "m": "_", "method": method, "args": literal_args(w, st, a),
+            st.oblig[key] = {"ops": [{"op": "m.new.private", "spec": m["spec"]}] +
+                                    [{"op": "m.edit", "m": "_", "what": e} for e in m.get("edits", ())] +
+                                    [{"op": "m.call", "m": "_", "method": method, "args": literal_args(w, st, a),
                                       "seed": rec.get("seed")}],
                              "expect": (outcome_digest(*out), plain(out[1])), "step": w.step, "site": site,
                              "cls": "result_depends_on_history", "variant": "pristine"}
@@ -488,6 +490,11 @@ def twin_compare(w, st, m, rec, out, site):
     tp = twin_params(w, m["spec"])
     t = w.call(model_ctor(w, st, m["type"], tp))
     if t[0] != "ok":
+        return
+    try:
+        for what in m.get("edits", ()):
+            apply_edit(t[1], m["type"], what)
+    except Exception:
         return
     fn, _ = call_method(w, st, t[1], m["type"], rec["method"], rec.get("args", {}), G.seed_object(w, rec.get("seed")))
     out2 = w.call(fn)
@@ -747,7 +754,48 @@ def h_m_drop(w, st, rec):
     return "ok:-", None
 
 
-HANDLERS = {"m.drop": h_m_drop, "buf.new": h_buf_new, "m.new": h_m_new, "m.call": h_m_call, "u.call": h_u_call,
+def apply_edit(obj, mtype, what):
+    """The caller's in-place edit of a public attribute of its own model."""
+    if mtype == "lganm":
+        if what == "W":
+            obj.W[obj.W != 0] *= 1.5
+        elif what == "variances":
+            obj.variances *= 2
+        else:
+            obj.means += 1
+    else:
+        if what == "cov":
+            obj.covariance *= 2
+        else:
+            obj.mean += 1
+
+
+def h_m_edit(w, st, rec):
+    """The caller edits a public attribute of ITS model in place (the library's own tests re-assign
+    `joint.mean`).  What must still hold is the clause "results do not depend on earlier calls": the edited
+    model is compared with a twin that is built from the same literal copy, receives the same edits and was
+    never called before them.  (A cache filled at construction goes equally stale in both and is not
+    flagged; a cache filled by an earlier call is.)"""
+    m = st.models.get(rec["m"])
+    if m is None or m["type"] not in ("lganm", "nd"):
+        raise Skip()
+    obj = m["obj"]
+    what = rec.get("what", "means")
+    try:
+        apply_edit(obj, m["type"], what)
+    except Exception:
+        raise Skip()
+    m["edits"] = list(m.get("edits", ())) + [what]
+    m["snap"] = snapshot(obj)
+    m["law"] = obs_law(w, obj, m["type"])
+    for r in st.results.values():
+        if r["obj"] is obj:
+            r["digest"] = digest(obj)     # the caller changed an object it was handed: its own doing
+    w.probes["caller.edits_model_attribute"] += 1
+    return "ok:-", None
+
+
+HANDLERS = {"m.edit": h_m_edit, "m.drop": h_m_drop, "buf.new": h_buf_new, "m.new": h_m_new, "m.call": h_m_call, "u.call": h_u_call,
             "fault.scribble": h_scribble, "m.new.private": h_m_new_private}
 
 
@@ -920,7 +968,10 @@ def pristine_eval(sempler, ops):
     for i, rec in enumerate(ops):
         w.step = i
         rec = resolve_models(w, st, rec)
-        od, out = HANDLERS[rec["op"]](w, st, rec)
+        try:
+            od, out = HANDLERS[rec["op"]](w, st, rec)
+        except Skip:
+            return ("skip", None)      # the reference model could not be rebuilt from the literal copy: no verdict
         res = (od, plain(out[1]) if out is not None else None)
     return res
 
@@ -941,6 +992,8 @@ def resolve_models(w, st, rec):
 
 
 def pristine_equal(got, expect):
+    if got[0] == "skip":
+        return True
     return got[0] == expect[0] or equalish(got[1], expect[1])
 
 
@@ -966,7 +1019,7 @@ def gen_config(g):
             "nmax": 15 if g.random() < 0.93 else g.choice([120, 1100]),
             "faults": faults, "weights": weights, "max_models": g.randint(2, 5),
             "seeds": G.seed_alphabet(g),
-            "sweep_rate": g.choice([0, 0, 0.1, 0.4]), "bursts": g.random() < 0.06, "twin_rate": g.choice([0.1, 0.3, 0.6]),
+            "sweep_rate": g.choice([0, 0, 0.1, 0.4]), "bursts": g.random() < 0.06, "edits": g.random() < 0.2, "twin_rate": g.choice([0.1, 0.3, 0.6]),
             "fault_rate": g.choice([0.05, 0.1, 0.2]), "types": g.choice([["lganm", "nd", "anm"], ["lganm"], ["nd"], ["anm"],
                                                                         ["lganm", "nd"], ["lganm", "anm"]])}
 
@@ -1291,6 +1344,22 @@ def generate(run_seed, deep=False):
                 ops.append(r2)
             continue
         kind = sc.choices(kinds, [wt[k] for k in kinds])[0]
+        if gs.models and cfg.get("edits") and g.random() < 0.08:
+            cand = [mid for mid, mm in gs.models.items() if mm["type"] in ("lganm", "nd")]
+            if cand:
+                mid = sc.choice(sorted(cand))
+                ops.append({"c": c, "op": "m.edit", "m": mid,
+                            "what": g.choice(["W", "means", "variances"] if gs.models[mid]["type"] == "lganm" else ["mean", "cov"])})
+                # ask the edited model something that was asked before
+                prev = [r for r in gs.repeatable if r.get("op") == "m.call" and r.get("m") == mid]
+                if prev:
+                    r2 = copy.deepcopy(sc.choice(prev))
+                    r2["c"] = sc.randrange(nclients)
+                    r2.pop("as_model", None)
+                    r2.pop("keep", None)
+                    r2["twin"] = True
+                    ops.append(r2)
+                continue
         if kind == "m.new":
             if len(gs.models) < cfg["max_models"]:
                 gen_model(g, gs, cfg, ops, c, invalid=("call.invalid" in cfg["faults"] and g.random() < 0.1))
@@ -1555,7 +1624,7 @@ REQUIRED_PROBES = ["iv.do.non_source", "iv.shift.non_source", "iv.noise.non_sour
                    "history.aged_vs_twin", "sweep.fault_positions", "sweep.utils", "obs_law.checked", "obs_law.checked:anm", "obs_law.checked:nd", "buf.view", "gc.model_dropped",
                    "gc.model_id_reused", "two_models_from_one_caller_array", "model_from_generator_output", "buf.lower_rank",
                    "buf.readonly_view", "buf.column_vector", "call.by_keyword", "scribble.in:bound_method_owner", "scribble.in:model_object_held_by_a_callable",
-                   "scribble.in:partial_bound_array", "buf.pandas", "burst.calls_on_one_model", "model.used_through_a_copy",
+                   "scribble.in:partial_bound_array", "buf.pandas", "burst.calls_on_one_model", "model.used_through_a_copy", "caller.edits_model_attribute",
                    "call.same_object_for_two_parameters",
                    "utils.unseeded_call",
                    "nd.check_valid"]
